@@ -517,6 +517,8 @@ def check(run):
     run_cases(run, w_wide_table, [("wide", run.seed, run.tier)])
     run_cases(run, w_copy_swap, [("copyswap", s, run.tier) for s in seeds])
     run_cases(run, w_units, [("units", s, run.tier) for s in seeds])
+    from props import C0x_range
+    run_cases(run, C0x_range.w_chain, [("range", run.seed + i) for i in range(2 if run.tier == "quick" else 8)])
     from props import C01_sym
     guarded(run, C01_sym.prove_chain)
     run.rule = ("models {spin chains, spin with 1 and 2 quantum numbers, spin+shifted oscillator+electron, Holstein-like, multi-DoF electron sites, single site, "
